@@ -99,3 +99,56 @@ Fixpoint run_aio_from (ident secret : bytes) (s : asess) (es : list caev) : list
 Definition run_aio (ident secret : bytes) (es : list caev) : list N := run_aio_from ident secret asess0 es.
 Definition run_aio_full (ident secret : bytes) (es : list caev) : list string :=
   (fix go s es := match es with [] => [] | e :: t => let s' := astep ident secret s (aev_of e) in show_asess ident secret s' :: go s' t end) asess0 es.
+
+(* ---- Twisted ClientSessionService glue ------------------------------------------------------------------ *)
+From HP Require Import TwSession.
+Definition tev_of (e : caev) : option tev :=
+  match e with
+  | KOk => Some TConn | KData k ch => Some (TData k (expand ch)) | KLost k => Some (TLost k)
+  | KSub c => Some (TSub c) | KUnsub c => Some (TUnsub c) | KPub c d => Some (TPub c (expand d)) | KRead => Some TRead
+  | _ => None
+  end.
+Fixpoint run_tw_from (ident secret : bytes) (s : asess) (es : list caev) : list N :=
+  match es with
+  | [] => []
+  | e :: t => let s' := match tev_of e with Some te => tstep ident secret s te | None => s end in
+              adler_str (show_asess ident secret s') :: run_tw_from ident secret s' t
+  end.
+Definition run_tw (ident secret : bytes) (es : list caev) : list N := run_tw_from ident secret asess0 es.
+
+(* ---- legacy blocking Client ----------------------------------------------------------------------------- *)
+From HP Require Import LegacyClient.
+Definition show_lev (e : lev) : string :=
+  match e with
+  | LAttempt => "att"%string
+  | LConnected k => ("conn" ++ show_nat k)%string
+  | LInfo k r => ""%string
+  | LSentAuth k r => ("A" ++ show_nat k ++ ":" ++ fp r)%string
+  | LSentSub k c => ("S" ++ show_nat k ++ ":" ++ fp c)%string
+  | LSendFailed k => ("sendfail" ++ show_nat k)%string
+  | LMsg i c d => ("M" ++ fp i ++ "/" ++ fp c ++ "/" ++ fp d)%string
+  | LErrMsg e => ("E" ++ fp e)%string
+  | LSleep => "sleep"%string
+  | LDisconnected k => ("disc" ++ show_nat k)%string
+  | LReturn => "return"%string
+  | LCrash => "crash"%string
+  | LScriptEnd => "end"%string
+  end.
+Definition is_lsub (e : lev) : bool := match e with LSentSub _ _ => true | _ => false end.
+Definition is_ghost (e : lev) : bool := match e with LInfo _ _ | LDisconnected _ => true | _ => false end.
+Fixpoint canon_lev (l : list lev) (run : option N) : list N :=
+  match l with
+  | [] => match run with Some n => [n] | None => [] end
+  | e :: t =>
+      if is_ghost e then canon_lev t run
+      else if is_lsub e then canon_lev t (Some ((match run with Some n => n | None => 7%N end + adler_str (show_lev e)) mod 4294967296)%N)
+      else match run with
+           | Some n => n :: adler_str (show_lev e) :: canon_lev t None
+           | None => adler_str (show_lev e) :: canon_lev t None
+           end
+  end.
+Inductive crres := CData (d : list seg) | CTimeout | CEof | CErr.
+Definition rres_of (r : crres) : rres := match r with CData d => RData (expand d) | CTimeout => RTimeout | CEof => REof | CErr => RErr end.
+Definition run_legacy (conn : list bool) (recv : list crres) (send : list bool) (subs : list bytes) (stop_after : option nat)
+                      (fuel : nat) : list N :=
+  canon_lev (rev (ltrace (lrun fuel (linit conn (map rres_of recv) send subs stop_after)))) None.
